@@ -273,6 +273,61 @@ func (*BaseNode).SortChildren
   loop 2 inv n.firstChild == sorted && n.childCount == old(n.childCount) && (sorted == nil ==> (c == nil && n.lastChild == old(n.lastChild)))
   loop 2 inv c == sorted || (n.lastChild != nil && nxt(n.lastChild) == c)
 
+// ---- Walk: ghost log of the walker calls (append-only; index = number of calls made before) ----
+ghost var wlen() int                  // number of walker calls made so far
+ghost var wnode(t int) addr           // node handed to the t-th call
+ghost var wenter(t int) bool          // its entering flag
+ghost var wstat(t int) int            // the status it returned
+ghost var werr(t int) addr            // the error it returned
+ghost var whalt() bool                // some call so far returned WalkStop or an error
+
+// Every function used as a Walker: logs the call; "stopping at once" = it is never called again once a call
+// returned WalkStop or an error.  It must not change the link fields of the tree (assumption of the property).
+iface ast.Walker.call
+  requires [notHalted] !whalt()
+  updates wlen() = wlen() + 1
+  updates wnode(t) = (t == wlen() ? n : wnode(t))
+  updates wenter(t) = (t == wlen() ? entering : wenter(t))
+  postupdates wstat(t) = (t == old(wlen()) ? int(result0) : old(wstat(t)))
+  postupdates werr(t) = (t == old(wlen()) ? result1 : old(werr(t)))
+  postupdates whalt() = (old(whalt()) || result0 == WalkStop || result1 != nil)
+  modifies nothing
+
+macro wlogKept() = forall t int {wnode(t)} {wenter(t)} {wstat(t)} {werr(t)} :: (0 <= t && t < old(wlen())) ==> (wnode(t) == old(wnode(t)) && wenter(t) == old(wenter(t)) && wstat(t) == old(wstat(t)) && werr(t) == old(werr(t)))
+
+// walkHelper(n): the four local clauses that, by induction over the tree, say "depth-first, entering and leaving
+// every node once, skipping the children when told to, stopping at once on WalkStop or an error".
+func walkHelper
+  requires WF() && n != nil && !whalt() && wlen() >= 0
+  ensures [enter] wlen() > old(wlen()) && wnode(old(wlen())) == n && wenter(old(wlen()))
+  ensures [kept] wlogKept()
+  ensures [halt] whalt() <==> (result0 == WalkStop || result1 != nil)
+  ensures [status] !whalt() ==> (result0 == WalkContinue && result1 == nil)
+  ensures [error] result1 != nil ==> result1 == werr(wlen() - 1)
+  ensures [leave] !whalt() ==> (wlen() >= old(wlen()) + 2 && wnode(wlen() - 1) == n && !wenter(wlen() - 1))
+  ensures [skip] (!whalt() && wstat(old(wlen())) == WalkSkipChildren) ==> wlen() == old(wlen()) + 2
+  ensures [leaf] (!whalt() && klen(n) == 0) ==> wlen() == old(wlen()) + 2
+  ensures [first] (wstat(old(wlen())) == WalkContinue && werr(old(wlen())) == nil && klen(n) > 0) ==> (wlen() > old(wlen()) + 1 && wnode(old(wlen()) + 1) == kid(n, 0) && wenter(old(wlen()) + 1))
+  modifies wlen, wnode, wenter, wstat, werr, whalt
+  // children 0..kidx(c)-1 have been walked completely, in order, none halted; c is the next one
+  loop 0 inv !whalt() && wlen() > old(wlen()) && (c == nil || (par(c) == n && 0 <= kidx(c) && kidx(c) < klen(n) && kid(n, kidx(c)) == c))
+  loop 0 inv wnode(old(wlen())) == n && wenter(old(wlen())) && wstat(old(wlen())) == int(status) && status != WalkStop && status != WalkSkipChildren && werr(old(wlen())) == nil
+  loop 0 inv wlogKept()
+  loop 0 inv (c != nil && kidx(c) == 0) ==> wlen() == old(wlen()) + 1
+  loop 0 inv (klen(n) > 0 && (c == nil || kidx(c) > 0)) ==> (wlen() > old(wlen()) + 1 && wnode(old(wlen()) + 1) == kid(n, 0) && wenter(old(wlen()) + 1))
+  loop 0 inv (c == nil && klen(n) == 0) ==> wlen() == old(wlen()) + 1
+  loop 0 dec (c == nil ? 0 : klen(n) - kidx(c))
+
+// Walk returns the error the walk stopped with (nil when it ran to completion or stopped on WalkStop)
+func Walk
+  bodyspec
+  requires WF() && n != nil && !whalt() && wlen() >= 0
+  ensures [enter] wlen() > old(wlen()) && wnode(old(wlen())) == n && wenter(old(wlen()))
+  ensures [kept] wlogKept()
+  ensures [error] result != nil ==> (whalt() && result == werr(wlen() - 1))
+  ensures [complete] !whalt() ==> (result == nil && wnode(wlen() - 1) == n && !wenter(wlen() - 1))
+  modifies wlen, wnode, wenter, wstat, werr, whalt
+
 func NewHTMLBlock
   ensures result != nil && fresh(result)
   modifies nothing
